@@ -85,7 +85,11 @@ def meaning (fetch : Bytes → Option Table) (q : Select) : Option (List Row) :=
     | some c => do
       let t ← src.mapM (holds c fields)
       pure ((src.zip t).filterMap fun (r, b) => if b then some r else none)
-  if isStar q.list then some src
+  -- `*` shows the source rows themselves.  With a GROUP BY, or next to an aggregate, the result has one
+  -- row per group and `*` names no column of it: such a query has no meaning (`SELECT * FROM t GROUP BY a`
+  -- is accepted by the parser and refused by `aggregateRows`)
+  if isStar q.list then
+    (if q.groupBy.isEmpty && !(q.list.any fun d => isAgg d.item) then some src else none)
   else
   -- every column named in the select list must resolve, whether or not there are rows
   let _ ← (q.list.flatMap fun d => itemColumns d.item).mapM fun c =>
@@ -127,6 +131,11 @@ def subMultiset (a b : List Row) : Bool := a.all fun r => count r a ≤ count r 
 def sameMultiset (a b : List Row) : Bool := a.length == b.length && subMultiset a b && subMultiset b a
 
 def keyProj (keys : List (Nat × Bool)) (r : Row) : List Val := keys.map fun (i, _) => (r[i]?).getD .null
+
+/-- the OFFSET / LIMIT that are written are not negative (the parser refuses a negative bound;
+`EvaluateSelect` slices with it: `drop` / `take` below are its meaning only then) -/
+def boundsOK (lim : LimitOffset) : Bool :=
+  (!lim.offsetActive || decide (0 ≤ lim.offset)) && (!lim.limitActive || decide (0 ≤ lim.limit))
 
 /-- Does `result` satisfy the meaning of `q`?  `ordered` = the FROM clause is a single table
 (so without ORDER BY rows must come back in insertion order); otherwise the result is a
